@@ -73,12 +73,15 @@ var units = []Unit{
 		{Kind: "block", Name: "decodeMessageData_timestamp", Func: "Decoder.decodeMessageData", Anchor: "d.lastTimeOffset"},
 		// timestamp tracking of decodeFields: d.timestamp = timestamp; d.lastTimeOffset = byte(timestamp & mask)
 		{Kind: "block", Name: "decodeFields_timestamp", Func: "Decoder.decodeFields", Anchor: "d.lastTimeOffset"},
+		{Kind: "cond", Name: "decodeMessageData_isCompressed", Func: "Decoder.decodeMessageData", Anchor: "MesgCompressedHeaderMask", Occur: 1},
+	}},
+	// component expansion: the bit store and the accumulator (a unit of its own: C05 does not depend on the timestamp blocks)
+	{Name: "decoderbits", Dir: "decoder", Items: []Item{
 		{Kind: "func", Name: "bits.Pull"},
 		{Kind: "func", Name: "Accumulator.Collect"},
 		{Kind: "func", Name: "Accumulator.Accumulate"},
 		{Kind: "func", Name: "Accumulator.Reset"},
 		{Kind: "methodset", Name: "Accumulator", Methods: "Collect Accumulate Reset"},
-		{Kind: "cond", Name: "decodeMessageData_isCompressed", Func: "Decoder.decodeMessageData", Anchor: "MesgCompressedHeaderMask", Occur: 1},
 	}},
 	{Name: "encoder", Dir: "encoder", Items: []Item{
 		// the decision and header composition of compressTimestampIntoHeader (after the loop over the fields)
